@@ -1175,3 +1175,1032 @@ Proof.
   intros Hr. destruct (reachable_inv _ _ (inv_init_replicate srccap dstcaps) Hr) as [HI _]. apply progress_inv. exact HI.
 Qed.
 End CMP.
+
+(* ================================================================================================ *)
+(* stream.Merge *)
+Module SMP.
+Import SM.
+
+Definition from (i : nat) (l : list (nat * Z)) : list Z := map snd (filter (fun p => Nat.eqb (fst p) i) l).
+Lemma from_app i l1 l2 : from i (l1 ++ l2) = from i l1 ++ from i l2.
+Proof. unfold from. rewrite filter_app, map_app. reflexivity. Qed.
+Lemma from_snoc_same i l v : from i (l ++ [(i, v)]) = from i l ++ [v].
+Proof. rewrite from_app. unfold from at 2. simpl. rewrite Nat.eqb_refl. reflexivity. Qed.
+Lemma from_snoc_other i j l v : j <> i -> from i (l ++ [(j, v)]) = from i l.
+Proof.
+  intros H. rewrite from_app. unfold from at 2. simpl. apply Nat.eqb_neq in H. rewrite H. apply app_nil_r.
+Qed.
+
+Definition count {A} (f : A -> bool) (l : list A) : nat := length (filter f l).
+Definition b2n (b : bool) : nat := if b then 1 else 0.
+
+Lemma count_upd {A} (f : A -> bool) l i x y :
+  nth_error l i = Some x -> count f (upd l i y) + b2n (f x) = count f l + b2n (f y).
+Proof.
+  unfold count. revert i. induction l as [|a l IH]; intros [|i] H; simpl in *; try discriminate.
+  - inversion H; subst. destruct (f x), (f y); simpl; lia.
+  - specialize (IH i H). destruct (f a); simpl; lia.
+Qed.
+
+Lemma count_map {A} (f : A -> bool) (g : A -> A) l : (forall x, f (g x) = f x) -> count f (map g l) = count f l.
+Proof.
+  intros H. unfold count. induction l as [|a l IH]; simpl; [reflexivity|]. rewrite H. destruct (f a); simpl; congruence.
+Qed.
+
+Lemma count_le {A} (f : A -> bool) l : count f l <= length l.
+Proof. unfold count. induction l as [|a l IH]; simpl; [lia|]. destruct (f a); simpl; lia. Qed.
+
+Lemma count_all {A} (f : A -> bool) l : count f l = length l -> forall i x, nth_error l i = Some x -> f x = true.
+Proof.
+  unfold count. induction l as [|a l IH]; intros H i x Hx; [destruct i; discriminate|].
+  simpl in H. destruct (f a) eqn:E; simpl in H.
+  - destruct i; simpl in Hx; [inversion Hx; subst; exact E | eapply IH; eauto].
+  - exfalso. pose proof (count_le f l) as L. unfold count in L. lia.
+Qed.
+
+Lemma count_zero {A} (f : A -> bool) l : count f l = 0 -> forall i x, nth_error l i = Some x -> f x = false.
+Proof.
+  unfold count. induction l as [|a l IH]; intros H i x Hx; [destruct i; discriminate|].
+  simpl in H. destruct (f a) eqn:E; simpl in H; [discriminate|].
+  destruct i; simpl in Hx; [inversion Hx; subst; exact E | eapply IH; eauto].
+Qed.
+
+Lemma nth_error_map_some {A B} (g : A -> B) l i y :
+  nth_error (map g l) i = Some y -> exists x, nth_error l i = Some x /\ y = g x.
+Proof.
+  revert i. induction l as [|a l IH]; intros [|i] H; simpl in *; try discriminate.
+  - inversion H. eauto.
+  - apply IH. exact H.
+Qed.
+
+Lemma nth_error_upd_cases {A} (l : list A) i j x y :
+  nth_error (upd l i x) j = Some y -> (j = i /\ y = x) \/ (j <> i /\ nth_error l j = Some y).
+Proof.
+  intros H. destruct (Nat.eq_dec i j) as [->|Hne].
+  - left. split; [reflexivity|].
+    assert (j < length l).
+    { assert (X : j < length (upd l j x)) by (apply nth_error_Some; congruence). rewrite upd_length in X. exact X. }
+    rewrite nth_error_upd_same in H by assumption. congruence.
+  - right. rewrite nth_error_upd_other in H by exact Hne. split; [congruence|exact H].
+Qed.
+
+(* ---- classification of worker program counters ---- *)
+Definition post_defer (p : wpc) : bool :=
+  match p with WLoadOnce | WSCloseNil | WCloseIn | WWgDone | WExited => true | _ => false end.
+Definition post_loop (p : wpc) : bool := match p with WDefer => true | _ => post_defer p end.
+Definition closer (p : wpc) : bool := match p with WLoadOnce | WSCloseNil => true | _ => false end.
+Definition not_exited (p : wpc) : bool := match p with WExited => false | _ => true end.
+Definition held (p : wpc) : list Z :=
+  match p with WSendPoll v | WSendSel v | WSendParked v => [v] | _ => [] end.
+Definition closed_in (p : wpc) : nat := match p with WWgDone | WExited => 1 | _ => 0 end.
+Definition winning (p : wpc) (e : err) : Prop := p = WCancel e \/ p = WSCloseErr e.
+
+(* ---- per-worker invariant ---- *)
+Record WI (s : st) (i : nat) (p : wpc) (x : src) : Prop := {
+  wi_nopanic : p <> WPanic;
+  wi_idle : p = WIdle <-> merged s = false;
+  wi_winner : forall e, winning p e -> winners s = [(i, e)] /\ sdone s = false;
+  wi_closenil : p = WSCloseNil -> once s = false;
+  wi_closer : closer p = true -> ndone s = nw s;
+  wi_parked : is_parked p = true -> ctx s = false /\ rdone s = false /\ sdone s = false;
+  wi_data : if post_loop p then exists d, s_out x = from i (recvd s) ++ d
+            else s_out x = from i (recvd s) ++ held p;
+  wi_ended : post_loop p = true -> once s = false -> rdone s = false ->
+             s_items x = [] /\ s_fin x = None /\ s_out x = from i (recvd s);
+  wi_closes : s_closes x = closed_in p
+}.
+
+Definition results (s : st) : list nres := seen s ++ match kpc_ s with KRet r => [r] | _ => [] end.
+Definition ended_ok (s : st) : Prop :=
+  forall i x, nth_error (srcs s) i = Some x -> s_items x = [] /\ s_fin x = None /\ s_out x = from i (recvd s).
+
+Definition k_ok (s : st) : Prop :=
+  match kpc_ s with
+  | KIdle => rdone s = true -> nw s = 0 \/ wg s = 0
+  | KNextSel _ | KRet _ | KClose1 => rdone s = false /\ merged s = true
+  | KNextParked _ => rdone s = false /\ merged s = true /\ sdone s = false
+  | KDrain => rdone s = false /\ merged s = true /\ sdone s = true
+  | KClose2 => rdone s = true /\ merged s = true
+  | KWait => rdone s = true /\ merged s = true /\ ctx s = true
+  | KCloseRet => merged s = true /\ (nw s = 0 \/ (rdone s = true /\ ctx s = true /\ wg s = 0))
+  end.
+
+Definition seen_ok (s : st) : Prop :=
+  (forall z, In (NErr (EScr z)) (results s) -> serr s = Some (EScr z))
+  /\ (In NEnd (results s) -> nw s = 0 \/ (sdone s = true /\ serr s = None /\ ended_ok s)).
+
+Record GI (s : st) : Prop := {
+  g_lenw : length (ws s) = nw s;
+  g_lens : length (srcs s) = nw s;
+  g_ndone : ndone s = count post_defer (ws s);
+  g_wg : merged s = true -> wg s = count not_exited (ws s);
+  g_once : if once s
+           then exists i e p, winners s = [(i, e)] /\ nth_error (ws s) i = Some p /\ (sdone s = true \/ winning p e)
+           else winners s = [];
+  g_sender : if sdone s
+             then sclosed s = 1 /\
+                  match serr s with
+                  | None => once s = false /\ ndone s = nw s /\ (forall i p, nth_error (ws s) i = Some p -> closer p = false)
+                  | Some e => exists i, winners s = [(i, e)]
+                  end
+             else serr s = None /\ sclosed s = 0;
+  g_ctx : ctx s = true -> once s = true \/ rdone s = true;
+  g_lone : forall i j p q, nth_error (ws s) i = Some p -> nth_error (ws s) j = Some q ->
+                           closer p = true -> closer q = true -> i = j;
+  g_alldone : ndone s = nw s -> nw s <> 0 -> sdone s = true \/ exists i p, nth_error (ws s) i = Some p /\ closer p = true;
+  g_kpc : k_ok s;
+  g_seen : seen_ok s;
+  g_tags : Forall (fun p => fst p < nw s) (recvd s);
+  g_workers : forall i p x, nth_error (ws s) i = Some p -> nth_error (srcs s) i = Some x -> WI s i p x
+}.
+
+(* ---- consequences of the invariant ---- *)
+Lemma count_lt {A} (f : A -> bool) l i x : nth_error l i = Some x -> f x = false -> count f l < length l.
+Proof.
+  unfold count. revert i. induction l as [|a l IH]; intros [|i] H E; simpl in *; try discriminate.
+  - inversion H; subst. rewrite E. pose proof (count_le f l) as L. unfold count in L. lia.
+  - specialize (IH i H E). destruct (f a); simpl; lia.
+Qed.
+
+Lemma src_exists s i p : GI s -> nth_error (ws s) i = Some p -> exists x, nth_error (srcs s) i = Some x.
+Proof.
+  intros HG H. assert (i < length (ws s)) by (apply nth_error_Some; congruence).
+  destruct (nth_error (srcs s) i) eqn:E; [eauto|]. apply nth_error_None in E.
+  rewrite (g_lens _ HG) in E. rewrite (g_lenw _ HG) in *. lia.
+Qed.
+
+(* a worker that has not yet run its deferred AddUint32 exists: nDone < len(in) *)
+Lemma pre_defer_lt s i p : GI s -> nth_error (ws s) i = Some p -> post_defer p = false -> ndone s < nw s.
+Proof.
+  intros HG H E. rewrite (g_ndone _ HG), <- (g_lenw _ HG). eapply count_lt; eauto.
+Qed.
+
+Lemma pre_defer_no_closer s i p j q :
+  GI s -> nth_error (ws s) i = Some p -> post_defer p = false -> nth_error (ws s) j = Some q -> closer q = false.
+Proof.
+  intros HG H E Hq. destruct (closer q) eqn:C; [|reflexivity]. exfalso.
+  destruct (src_exists _ _ _ HG Hq) as [x Hx].
+  pose proof (wi_closer _ _ _ _ (g_workers _ HG j q x Hq Hx) C). pose proof (pre_defer_lt _ _ _ HG H E). lia.
+Qed.
+
+Lemma pre_defer_not_nil_closed s i p :
+  GI s -> nth_error (ws s) i = Some p -> post_defer p = false -> sdone s = true -> exists e, serr s = Some e.
+Proof.
+  intros HG H E Hd. pose proof (g_sender _ HG) as S. rewrite Hd in S. destruct S as [_ S].
+  destruct (serr s); [eauto|]. destruct S as (_ & A & _). pose proof (pre_defer_lt _ _ _ HG H E). lia.
+Qed.
+
+Lemma once_false_no_winner s i p e : GI s -> once s = false -> nth_error (ws s) i = Some p -> ~ winning p e.
+Proof.
+  intros HG Ho H W. destruct (src_exists _ _ _ HG H) as [x Hx].
+  destruct (wi_winner _ _ _ _ (g_workers _ HG i p x H Hx) e W) as [A _].
+  pose proof (g_once _ HG) as O. rewrite Ho in O. congruence.
+Qed.
+
+Lemma serr_some_once s e : GI s -> sdone s = true -> serr s = Some e -> once s = true.
+Proof.
+  intros HG Hd He. pose proof (g_sender _ HG) as S. rewrite Hd, He in S. destruct S as [_ [i W]].
+  pose proof (g_once _ HG) as O. destruct (once s); [reflexivity|congruence].
+Qed.
+
+Lemma merged_of_worker s i p : GI s -> nth_error (ws s) i = Some p -> p <> WIdle -> merged s = true.
+Proof.
+  intros HG H Hp. destruct (src_exists _ _ _ HG H) as [x Hx].
+  pose proof (wi_idle _ _ _ _ (g_workers _ HG i p x H Hx)) as [_ A].
+  destruct (merged s); [reflexivity|]. exfalso. apply Hp. apply A. reflexivity.
+Qed.
+
+(* ---- states that differ only in the consumer's own components ---- *)
+Definition same_core (s s' : st) : Prop :=
+  nw s' = nw s /\ ws s' = ws s /\ srcs s' = srcs s /\ merged s' = merged s /\ ctx s' = ctx s /\ sdone s' = sdone s
+  /\ serr s' = serr s /\ rdone s' = rdone s /\ ndone s' = ndone s /\ once s' = once s /\ wg s' = wg s
+  /\ recvd s' = recvd s /\ winners s' = winners s /\ sclosed s' = sclosed s.
+
+Lemma GI_same_core s s' : GI s -> same_core s s' -> k_ok s' -> seen_ok s' -> GI s'.
+Proof.
+  intros HG (E1 & E2 & E3 & E4 & E5 & E6 & E7 & E8 & E9 & E10 & E11 & E12 & E13 & E14) HK HS.
+  constructor; rewrite ?E1, ?E2, ?E3, ?E4, ?E5, ?E6, ?E7, ?E8, ?E9, ?E10, ?E11, ?E12, ?E13, ?E14;
+    try (apply HG; fail); try assumption.
+  intros i p x Hp Hx. destruct (g_workers _ HG i p x Hp Hx) as [w1 w2 w3 w4 w5 w6 w7 w8 w9].
+  constructor; rewrite ?E1, ?E2, ?E3, ?E4, ?E5, ?E6, ?E7, ?E8, ?E9, ?E10, ?E11, ?E12, ?E13, ?E14; assumption.
+Qed.
+
+(* ---- a worker moves on its own: only ws[i] (and possibly its source's record) changes ---- *)
+Lemma upd_same {A} (l : list A) i x : nth_error l i = Some x -> upd l i x = l.
+Proof.
+  revert i. induction l as [|a l IH]; intros [|i] H; simpl in *; try discriminate.
+  - inversion H; reflexivity.
+  - rewrite IH by exact H. reflexivity.
+Qed.
+
+Lemma with_srcs_same s i x : nth_error (srcs s) i = Some x -> with_srcs s (upd (srcs s) i x) = s.
+Proof. intros H. unfold with_srcs. rewrite upd_same by exact H. destruct s; reflexivity. Qed.
+
+(* general form: worker i moves from p to p' (its source record from x to x'); nDone and the WaitGroup counter follow *)
+Lemma GI_local s s' i p p' x x' :
+  GI s -> nth_error (ws s) i = Some p -> nth_error (srcs s) i = Some x ->
+  nw s' = nw s -> ws s' = upd (ws s) i p' -> srcs s' = upd (srcs s) i x' ->
+  merged s' = merged s -> ctx s' = ctx s -> sdone s' = sdone s -> serr s' = serr s -> rdone s' = rdone s ->
+  once s' = once s -> recvd s' = recvd s -> winners s' = winners s -> sclosed s' = sclosed s ->
+  kpc_ s' = kpc_ s -> seen s' = seen s ->
+  ndone s' + b2n (post_defer p) = ndone s + b2n (post_defer p') -> (post_defer p = true -> post_defer p' = true) ->
+  (merged s = true -> wg s' + b2n (not_exited p) = wg s + b2n (not_exited p')) -> (wg s = 0 -> wg s' = 0) ->
+  (closer p' = true -> closer p = true \/ post_defer p = false) ->
+  (closer p = true -> closer p' = true \/ sdone s = true) ->
+  (post_defer p = false -> post_defer p' = true -> ndone s' = nw s -> closer p' = true) ->
+  (forall e, winning p e -> winning p' e) ->
+  ((s_items x' = s_items x /\ s_fin x' = s_fin x /\ s_out x' = s_out x) \/ post_defer p = false) ->
+  (ndone s' = ndone s \/ forall j q, nth_error (ws s) j = Some q -> closer q = false) ->
+  (WI s i p x -> WI s' i p' x') ->
+  GI s'.
+Proof.
+  intros HG Hp Hx En Ews Esrcs Em Ec Ed Ee Er Eo Erc Ewn Esc Ek Esn Hnd Hmono Hwg Hwg0 Ecl1 Ecl2 Ecl3 Hnw Hsrc Hndc HW.
+  assert (Hi : i < length (ws s)) by (apply nth_error_Some; congruence).
+  assert (Hothers : forall j q y, j <> i -> nth_error (ws s) j = Some q -> nth_error (srcs s) j = Some y -> WI s' j q y).
+  { intros j q y Hne Hq Hy. destruct (g_workers _ HG j q y Hq Hy) as [w1 w2 w3 w4 w5 w6 w7 w8 w9].
+    constructor; rewrite ?En, ?Em, ?Ec, ?Ed, ?Ee, ?Er, ?Eo, ?Erc, ?Ewn; try assumption.
+    intros C. destruct Hndc as [E|E]; [rewrite E; apply w5; exact C|]. rewrite (E j q Hq) in C. discriminate. }
+  constructor; rewrite ?En, ?Ews, ?Esrcs, ?Em, ?Ec, ?Ed, ?Ee, ?Er, ?Eo, ?Erc, ?Ewn, ?Esc, ?upd_length;
+    try (apply HG; fail).
+  - pose proof (count_upd post_defer _ _ _ p' Hp) as C. pose proof (g_ndone _ HG). lia.
+  - intros Hm. pose proof (count_upd not_exited _ _ _ p' Hp) as C. pose proof (g_wg _ HG Hm). specialize (Hwg Hm). lia.
+  - pose proof (g_once _ HG) as O. destruct (once s); [|exact O].
+    destruct O as (i0 & e & p0 & A & B & C). exists i0, e.
+    destruct (Nat.eq_dec i i0) as [<-|Hne].
+    + exists p'. split; [exact A|]. split; [apply nth_error_upd_same; exact Hi|].
+      destruct C as [C|C]; [left; exact C|]. rewrite Hp in B. inversion B; subst. right. apply Hnw. exact C.
+    + exists p0. split; [exact A|]. split; [rewrite nth_error_upd_other by exact Hne; exact B|exact C].
+  - pose proof (g_sender _ HG) as S. destruct (sdone s) eqn:Ed'; [|exact S]. destruct S as [S1 S2]. split; [exact S1|].
+    destruct (serr s) eqn:Ee'; [exact S2|]. destruct S2 as (A & B & C).
+    assert (Hpd : post_defer p = true).
+    { eapply count_all; [|exact Hp]. rewrite <- (g_ndone _ HG), (g_lenw _ HG). exact B. }
+    assert (Hpd' : post_defer p' = true) by (apply Hmono; exact Hpd).
+    split; [exact A|]. split; [rewrite Hpd, Hpd' in Hnd; lia|].
+    intros j q Hq. destruct (nth_error_upd_cases _ _ _ _ _ Hq) as [[-> ->]|[Hne Hq']].
+    + destruct (closer p') eqn:E; [|reflexivity]. destruct (Ecl1 eq_refl) as [Cp|Cp].
+      * rewrite <- (C i p Hp). symmetry. exact Cp.
+      * congruence.
+    + eapply C; eauto.
+  - intros j1 j2 q1 q2 H1 H2 C1 C2.
+    destruct (nth_error_upd_cases _ _ _ _ _ H1) as [[-> ->]|[Hne1 H1']];
+      destruct (nth_error_upd_cases _ _ _ _ _ H2) as [[-> ->]|[Hne2 H2']]; auto.
+    + destruct (Ecl1 C1) as [Cp|Cp]; [eapply (g_lone _ HG); eauto|].
+      rewrite (pre_defer_no_closer _ _ _ _ _ HG Hp Cp H2') in C2. discriminate.
+    + destruct (Ecl1 C2) as [Cp|Cp]; [eapply (g_lone _ HG); eauto|].
+      rewrite (pre_defer_no_closer _ _ _ _ _ HG Hp Cp H1') in C1. discriminate.
+    + eapply (g_lone _ HG); eauto.
+  - (* alldone *) intros A B.
+    destruct (post_defer p) eqn:Epd; destruct (post_defer p') eqn:Epd'; simpl in Hnd.
+    + assert (A' : ndone s = nw s) by lia.
+      destruct (g_alldone _ HG A' B) as [D|(j & q & Hq & C)]; [left; exact D|].
+      destruct (Nat.eq_dec i j) as [<-|Hne].
+      * rewrite Hp in Hq. inversion Hq; subst. destruct (Ecl2 C) as [C'|D]; [|left; exact D].
+        right. exists i, p'. split; [apply nth_error_upd_same; exact Hi|exact C'].
+      * right. exists j, q. split; [rewrite nth_error_upd_other by exact Hne; exact Hq|exact C].
+    + exfalso. pose proof (count_upd post_defer _ _ _ p' Hp) as Cn. rewrite Epd, Epd' in Cn. simpl in Cn.
+      pose proof (g_ndone _ HG). assert (X : count post_defer (upd (ws s) i p') < length (upd (ws s) i p')).
+      { eapply count_lt; [apply nth_error_upd_same; exact Hi|exact Epd']. }
+      rewrite upd_length, (g_lenw _ HG) in X. lia.
+    + (* the worker that makes nDone reach len(in) becomes the closer *)
+      right. exists i, p'. split; [apply nth_error_upd_same; exact Hi|]. apply Ecl3; auto.
+    + exfalso. pose proof (pre_defer_lt _ _ _ HG Hp Epd). lia.
+  - (* k_ok *) pose proof (g_kpc _ HG) as K. unfold k_ok in *. rewrite Ek, ?En, ?Em, ?Ec, ?Ed, ?Er.
+    destruct (kpc_ s); try exact K.
+    + intros R. destruct (K R) as [Z|Z]; [left; exact Z|right; apply Hwg0; exact Z].
+    + destruct K as [K1 [Z|(K2 & K3 & K4)]]; (split; [exact K1|]); [left; exact Z|right; auto].
+  - (* seen_ok *) destruct (g_seen _ HG) as [S1 S2]. unfold seen_ok, results, ended_ok.
+    rewrite ?Ek, ?Esn, ?En, ?Ed, ?Ee, ?Erc, ?Esrcs. split; [exact S1|].
+    intros HE. destruct (S2 HE) as [Z|(D & E & F)]; [left; exact Z|]. right. split; [exact D|]. split; [exact E|].
+    intros j y Hy. destruct (nth_error_upd_cases _ _ _ _ _ Hy) as [[-> ->]|[Hne Hy']].
+    + destruct Hsrc as [(Q1 & Q2 & Q3)|Q].
+      * rewrite Q1, Q2, Q3. apply (F i x Hx).
+      * exfalso. destruct (pre_defer_not_nil_closed _ _ _ HG Hp Q D) as [e He]. congruence.
+    + apply (F j y Hy').
+  - intros j q y Hq Hy. destruct (nth_error_upd_cases _ _ _ _ _ Hq) as [[-> ->]|[Hne Hq']].
+    + rewrite nth_error_upd_same in Hy by (rewrite (g_lens _ HG), <- (g_lenw _ HG); exact Hi). inversion Hy; subst y.
+      apply HW. exact (g_workers _ HG i p x Hp Hx).
+    + rewrite nth_error_upd_other in Hy by congruence. apply Hothers; assumption.
+Qed.
+
+Lemma GI_setw_src s i p p' x x' :
+  GI s -> nth_error (ws s) i = Some p -> nth_error (srcs s) i = Some x ->
+  post_defer p' = post_defer p -> not_exited p' = not_exited p ->
+  (closer p' = true -> closer p = true) -> (closer p = true -> closer p' = true \/ sdone s = true) ->
+  (forall e, winning p e -> winning p' e) ->
+  ((s_items x' = s_items x /\ s_fin x' = s_fin x /\ s_out x' = s_out x) \/ post_defer p = false) ->
+  (WI s i p x -> WI s i p' x') ->
+  GI (setw (with_srcs s (upd (srcs s) i x')) i p').
+Proof.
+  intros HG Hp Hx Epd Ene Ecl1 Ecl2 Hnw Hsrc HW.
+  eapply (GI_local s _ i p p' x x'); eauto; simpl; try reflexivity.
+  - rewrite Epd. reflexivity.
+  - intros _. rewrite Ene. reflexivity.
+  - congruence.
+  - intros [w1 w2 w3 w4 w5 w6 w7 w8 w9]%HW. constructor; assumption.
+Qed.
+
+Lemma GI_setw s i p p' :
+  GI s -> nth_error (ws s) i = Some p ->
+  post_defer p' = post_defer p -> not_exited p' = not_exited p ->
+  (closer p' = true -> closer p = true) -> (closer p = true -> closer p' = true \/ sdone s = true) ->
+  (forall e, winning p e -> winning p' e) ->
+  (forall x, nth_error (srcs s) i = Some x -> WI s i p x -> WI s i p' x) ->
+  GI (setw s i p').
+Proof.
+  intros HG Hp Epd Ene Ecl1 Ecl2 Hnw HW.
+  destruct (src_exists _ _ _ HG Hp) as [x Hx].
+  rewrite <- (with_srcs_same s i x Hx) at 1.
+  eapply GI_setw_src; eauto.
+Qed.
+
+(* ---- preservation, label by label ---- *)
+Ltac wi_idle_tac w2 :=
+  split; [discriminate | let H := fresh "Hm" in intros H; apply w2 in H; discriminate].
+
+Lemma inv_LSrcEnter s i s' : GI s -> step s (LSrcEnter i) = Some s' -> GI s'.
+Proof.
+  intros HG Hs. simpl in Hs. destruct (nth_error (ws s) i) as [p|] eqn:Hp; [|discriminate].
+  destruct p; try discriminate. inversion Hs; subst s'; clear Hs.
+  eapply GI_setw; eauto; try (intros e [W|W]; discriminate); try discriminate.
+  intros x Hx [w1 w2 w3 w4 w5 w6 w7 w8 w9].
+  constructor; simpl in *; auto; try discriminate; try (intros e [W|W]; discriminate). wi_idle_tac w2.
+Qed.
+
+Lemma inv_TSendPoll s i s' : GI s -> step s (TSendPoll i) = Some s' -> GI s'.
+Proof.
+  intros HG Hs. simpl in Hs. destruct (nth_error (ws s) i) as [p|] eqn:Hp; [|discriminate].
+  destruct p; try discriminate. inversion Hs; subst s'; clear Hs.
+  destruct (sdone s) eqn:Ed.
+  - destruct (pre_defer_not_nil_closed _ _ _ HG Hp eq_refl Ed) as [e He]. rewrite He. simpl.
+    pose proof (serr_some_once _ _ HG Ed He) as Ho.
+    eapply GI_setw; eauto; try (intros e0 [W|W]; discriminate); try discriminate.
+    intros x Hx [w1 w2 w3 w4 w5 w6 w7 w8 w9].
+    constructor; simpl in *; auto; try discriminate; try (intros e0 [W|W]; discriminate).
+    + wi_idle_tac w2.
+    + eexists. exact w7.
+    + intros _ Ho'. congruence.
+  - eapply GI_setw; eauto; try (intros e0 [W|W]; discriminate); try discriminate.
+    intros x Hx [w1 w2 w3 w4 w5 w6 w7 w8 w9].
+    constructor; simpl in *; auto; try discriminate; try (intros e0 [W|W]; discriminate). wi_idle_tac w2.
+Qed.
+
+Ltac no_win := try (intros ? [?|?]; discriminate); try discriminate.
+
+Lemma inv_LSrcExit s i r s' : GI s -> step s (LSrcExit i r) = Some s' -> GI s'.
+Proof.
+  intros HG Hs. simpl in Hs. destruct (nth_error (ws s) i) as [p|] eqn:Hp; [|discriminate].
+  destruct p; try discriminate. destruct (nth_error (srcs s) i) as [x|] eqn:Hx; [|discriminate].
+  assert (Hctx : forall s1, (if ctx s then Some (setw s i (WCas ECtx)) else None) = Some s1 -> GI s1).
+  { intros s1 H. destruct (ctx s) eqn:Ec; [|discriminate]. inversion H; subst s1.
+    eapply GI_setw; eauto; no_win.
+    intros x0 Hx0 [w1 w2 w3 w4 w5 w6 w7 w8 w9].
+    constructor; simpl in *; auto; no_win. wi_idle_tac w2. }
+  destruct r as [v'| |e].
+  - (* item *)
+    destruct (s_tokens x) as [|t]; [discriminate|].
+    destruct (s_items x) as [|v rest] eqn:Ei; [destruct (s_fin x); discriminate|].
+    destruct (Z.eqb v v') eqn:Ev; [|discriminate]. inversion Hs; subst s'; clear Hs.
+    eapply GI_setw_src; eauto; no_win.
+    intros [w1 w2 w3 w4 w5 w6 w7 w8 w9].
+    constructor; simpl in *; auto; no_win.
+    + wi_idle_tac w2.
+    + rewrite w7, app_nil_r. reflexivity.
+  - (* end *)
+    destruct (s_tokens x) as [|t]; [discriminate|].
+    destruct (s_items x) as [|v rest] eqn:Ei; [|discriminate].
+    destruct (s_fin x) eqn:Ef; [discriminate|]. inversion Hs; subst s'; clear Hs.
+    eapply GI_setw_src; eauto; no_win.
+    intros [w1 w2 w3 w4 w5 w6 w7 w8 w9].
+    constructor; simpl in *; auto; no_win.
+    + wi_idle_tac w2.
+    + exists []. exact w7.
+    + intros _ _ _. rewrite w7, app_nil_r. auto.
+  - (* error *)
+    destruct e as [z| |].
+    + destruct (s_tokens x) as [|t]; [discriminate|].
+      destruct (s_items x) as [|v rest] eqn:Ei; [|discriminate].
+      destruct (s_fin x) as [z0|] eqn:Ef; [|discriminate].
+      destruct (Z.eqb z0 z) eqn:Ez; [|discriminate]. inversion Hs; subst s'; clear Hs.
+      eapply GI_setw_src; eauto; no_win.
+      intros [w1 w2 w3 w4 w5 w6 w7 w8 w9].
+      constructor; simpl in *; auto; no_win. wi_idle_tac w2.
+    + apply Hctx. exact Hs.
+    + destruct (s_tokens x) as [|t]; [discriminate|].
+      destruct (s_items x); destruct (s_fin x); discriminate.
+Qed.
+
+Lemma inv_TSendSel_local s i a s' : a <> AChan -> GI s -> step s (TSendSel i a) = Some s' -> GI s'.
+Proof.
+  intros Ha HG Hs. simpl in Hs. destruct (nth_error (ws s) i) as [p|] eqn:Hp; [|discriminate].
+  destruct p; try discriminate.
+  destruct a; try congruence.
+  - (* ACtx *) destruct (ctx s) eqn:Ec; [|discriminate]. inversion Hs; subst s'; clear Hs.
+    eapply GI_setw; eauto; no_win.
+    intros x Hx [w1 w2 w3 w4 w5 w6 w7 w8 w9].
+    constructor; simpl in *; auto; no_win.
+    + wi_idle_tac w2.
+    + eexists. exact w7.
+    + intros _ Ho Hr. destruct (g_ctx _ HG Ec); congruence.
+  - (* AStream *) destruct (rdone s) eqn:Er; [|discriminate]. inversion Hs; subst s'; clear Hs.
+    eapply GI_setw; eauto; no_win.
+    intros x Hx [w1 w2 w3 w4 w5 w6 w7 w8 w9].
+    constructor; simpl in *; auto; no_win.
+    + wi_idle_tac w2.
+    + eexists. exact w7.
+    + intros _ _ Hr. congruence.
+  - (* ASender *) destruct (sdone s) eqn:Ed; [|discriminate]. inversion Hs; subst s'; clear Hs.
+    destruct (pre_defer_not_nil_closed _ _ _ HG Hp eq_refl Ed) as [e He]. rewrite He. simpl.
+    pose proof (serr_some_once _ _ HG Ed He) as Ho.
+    eapply GI_setw; eauto; no_win.
+    intros x Hx [w1 w2 w3 w4 w5 w6 w7 w8 w9].
+    constructor; simpl in *; auto; no_win.
+    + wi_idle_tac w2.
+    + eexists. exact w7.
+    + intros _ Ho'. congruence.
+  - (* APark *)
+    destruct (ctx s || rdone s || sdone s || k_parked s) eqn:Eg; [discriminate|]. inversion Hs; subst s'; clear Hs.
+    apply orb_false_elim in Eg. destruct Eg as [Eg _]. apply orb_false_elim in Eg. destruct Eg as [Eg Ed].
+    apply orb_false_elim in Eg. destruct Eg as [Ec Er].
+    eapply GI_setw; eauto; no_win.
+    intros x Hx [w1 w2 w3 w4 w5 w6 w7 w8 w9].
+    constructor; simpl in *; auto; no_win. wi_idle_tac w2.
+Qed.
+
+Lemma inv_TLoadOnce s i s' : GI s -> step s (TLoadOnce i) = Some s' -> GI s'.
+Proof.
+  intros HG Hs. simpl in Hs. destruct (nth_error (ws s) i) as [p|] eqn:Hp; [|discriminate].
+  destruct p; try discriminate. inversion Hs; subst s'; clear Hs.
+  destruct (src_exists _ _ _ HG Hp) as [x0 Hx0].
+  pose proof (wi_closer _ _ _ _ (g_workers _ HG _ _ _ Hp Hx0) eq_refl) as Hnd.
+  destruct (once s) eqn:Eo.
+  - (* somebody won the CAS: the pipe is (being) closed with that error; all workers are past their loop *)
+    assert (Hd : sdone s = true).
+    { pose proof (g_once _ HG) as O. rewrite Eo in O. destruct O as (i0 & e & p0 & A & B & [C|C]); [exact C|].
+      exfalso. assert (post_defer p0 = true).
+      { eapply count_all; [|exact B]. rewrite <- (g_ndone _ HG), (g_lenw _ HG). exact Hnd. }
+      destruct C as [C|C]; subst p0; discriminate. }
+    eapply GI_setw; eauto; no_win.
+    intros x Hx [w1 w2 w3 w4 w5 w6 w7 w8 w9].
+    constructor; simpl in *; auto; no_win. wi_idle_tac w2.
+  - eapply GI_setw; eauto; no_win.
+    intros x Hx [w1 w2 w3 w4 w5 w6 w7 w8 w9].
+    constructor; simpl in *; auto; no_win. wi_idle_tac w2.
+Qed.
+
+Lemma inv_LSrcClose s i s' : GI s -> step s (LSrcClose i) = Some s' -> GI s'.
+Proof.
+  intros HG Hs. simpl in Hs. destruct (nth_error (ws s) i) as [p|] eqn:Hp; [|discriminate].
+  destruct p; try discriminate. destruct (nth_error (srcs s) i) as [x|] eqn:Hx; [|discriminate].
+  inversion Hs; subst s'; clear Hs.
+  eapply GI_setw_src; eauto; no_win.
+  intros [w1 w2 w3 w4 w5 w6 w7 w8 w9].
+  constructor; simpl in *; auto; no_win.
+  wi_idle_tac w2.
+Qed.
+
+(* ---- the consumer's own steps ---- *)
+Ltac core := unfold same_core; simpl; repeat split; reflexivity.
+
+Lemma seen_ok_same s s' :
+  same_core s s' -> (forall r, In r (results s') -> In r (results s)) -> seen_ok s -> seen_ok s'.
+Proof.
+  intros (E1 & E2 & E3 & E4 & E5 & E6 & E7 & E8 & E9 & E10 & E11 & E12 & E13 & E14) Hin [S1 S2].
+  unfold seen_ok, ended_ok. rewrite E1, E3, E6, E7, E12. split.
+  - intros z Hz. apply S1. apply Hin. exact Hz.
+  - intros Hz. apply S2. apply Hin. exact Hz.
+Qed.
+
+Lemma seen_ok_add s s' r :
+  same_core s s' -> (forall r', In r' (results s') -> r' = r \/ In r' (results s)) ->
+  (forall z, r = NErr (EScr z) -> serr s = Some (EScr z)) ->
+  (r = NEnd -> nw s = 0 \/ (sdone s = true /\ serr s = None /\ ended_ok s)) ->
+  seen_ok s -> seen_ok s'.
+Proof.
+  intros (E1 & E2 & E3 & E4 & E5 & E6 & E7 & E8 & E9 & E10 & E11 & E12 & E13 & E14) Hin H1 H2 [S1 S2].
+  unfold seen_ok, ended_ok in *. rewrite E1, E3, E6, E7, E12. split.
+  - intros z Hz. destruct (Hin _ Hz) as [<-|Hz']; [apply H1; reflexivity | apply S1; exact Hz'].
+  - intros Hz. destruct (Hin _ Hz) as [<-|Hz']; [apply H2; reflexivity | apply S2; exact Hz'].
+Qed.
+
+Lemma all_ended s :
+  GI s -> sdone s = true -> serr s = None -> rdone s = false -> ended_ok s.
+Proof.
+  intros HG Hd He Hr. pose proof (g_sender _ HG) as S. rewrite Hd, He in S. destruct S as (_ & Ho & Hn & _).
+  intros i x Hx.
+  assert (Hi : i < length (ws s)).
+  { rewrite (g_lenw _ HG), <- (g_lens _ HG). apply nth_error_Some. congruence. }
+  destruct (nth_error (ws s) i) as [p|] eqn:Hp; [|apply nth_error_None in Hp; lia].
+  assert (Hpd : post_defer p = true).
+  { eapply count_all; [|exact Hp]. rewrite <- (g_ndone _ HG), (g_lenw _ HG). exact Hn. }
+  apply (wi_ended _ _ _ _ (g_workers _ HG i p x Hp Hx)); auto.
+  destruct p; try discriminate; reflexivity.
+Qed.
+
+Lemma inv_LGo s k s' : GI s -> step s (LGo k) = Some s' -> GI s'.
+Proof.
+  intros HG Hs. simpl in Hs. destruct (merged s) eqn:Em; [|discriminate]. inversion Hs; subst s'; clear Hs.
+  eapply GI_same_core; [exact HG | core | exact (g_kpc _ HG) |].
+  eapply seen_ok_same; [core | | exact (g_seen _ HG)]. intros r Hr. exact Hr.
+Qed.
+
+Lemma inv_LCallNext s c s' : GI s -> step s (LCallNext c) = Some s' -> GI s'.
+Proof.
+  intros HG Hs. simpl in Hs. destruct (kpc_ s) eqn:Ek; try discriminate.
+  destruct (kgo s) as [|g]; [discriminate|]. destruct (kprog s) as [|[c'|] rest]; try discriminate.
+  destruct (Nat.eqb c c' && merged s && negb (rdone s)) eqn:Eg; [|discriminate]. inversion Hs; subst s'; clear Hs.
+  apply andb_prop in Eg. destruct Eg as [Eg Er]. apply andb_prop in Eg. destruct Eg as [_ Em].
+  apply negb_true_iff in Er.
+  destruct (ws s) as [|p0 wl] eqn:Ew.
+  - assert (Hn : nw s = 0) by (rewrite <- (g_lenw _ HG), Ew; reflexivity).
+    eapply GI_same_core; [exact HG | core | unfold k_ok; simpl; auto |].
+    eapply seen_ok_add with (r := NEnd); [core | | discriminate | intros _; left; exact Hn | exact (g_seen _ HG)].
+    intros r Hr. unfold results in *. simpl in Hr. rewrite Ek, app_nil_r. apply in_app_or in Hr.
+    destruct Hr as [Hr|[<-|[]]]; auto.
+  - eapply GI_same_core; [exact HG | core | unfold k_ok; simpl; auto |].
+    eapply seen_ok_same; [core | | exact (g_seen _ HG)].
+    intros r Hr. unfold results in *. simpl in Hr. rewrite Ek. exact Hr.
+Qed.
+
+Lemma inv_TNextSel_local s a s' : (forall i, a <> NAChan i) -> GI s -> step s (TNextSel a) = Some s' -> GI s'.
+Proof.
+  intros Ha HG Hs. simpl in Hs. destruct (kpc_ s) eqn:Ek; try discriminate.
+  pose proof (g_kpc _ HG) as K. unfold k_ok in K. rewrite Ek in K. destruct K as [Kr Km].
+  destruct a as [|i| |].
+  - destruct (kctx_done s c); [|discriminate]. inversion Hs; subst s'; clear Hs.
+    eapply GI_same_core; [exact HG | core | unfold k_ok; simpl; auto |].
+    eapply seen_ok_add with (r := NErr ECtx); [core | | discriminate | discriminate | exact (g_seen _ HG)].
+    intros r Hr. unfold results in *. simpl in Hr. rewrite Ek, app_nil_r. apply in_app_or in Hr.
+    destruct Hr as [Hr|[<-|[]]]; auto.
+  - exfalso. eapply Ha; reflexivity.
+  - destruct (sdone s) eqn:Ed; [|discriminate]. inversion Hs; subst s'; clear Hs.
+    eapply GI_same_core; [exact HG | core | unfold k_ok; simpl; auto |].
+    eapply seen_ok_same; [core | | exact (g_seen _ HG)].
+    intros r Hr. unfold results in *. simpl in Hr. rewrite Ek. exact Hr.
+  - destruct (kctx_done s c || sdone s || existsb is_parked (ws s)) eqn:Eg; [discriminate|].
+    inversion Hs; subst s'; clear Hs.
+    apply orb_false_elim in Eg. destruct Eg as [Eg _]. apply orb_false_elim in Eg. destruct Eg as [_ Ed].
+    eapply GI_same_core; [exact HG | core | unfold k_ok; simpl; auto |].
+    eapply seen_ok_same; [core | | exact (g_seen _ HG)].
+    intros r Hr. unfold results in *. simpl in Hr. rewrite Ek. exact Hr.
+Qed.
+
+Lemma inv_TDrain_none s s' : GI s -> step s (TDrain None) = Some s' -> GI s'.
+Proof.
+  intros HG Hs. simpl in Hs. destruct (kpc_ s) eqn:Ek; try discriminate.
+  destruct (existsb is_parked (ws s)); [discriminate|]. inversion Hs; subst s'; clear Hs.
+  pose proof (g_kpc _ HG) as K. unfold k_ok in K. rewrite Ek in K. destruct K as (Kr & Km & Kd).
+  eapply GI_same_core; [exact HG | core | unfold k_ok; simpl; auto |].
+  eapply seen_ok_add with (r := match serr s with Some e => NErr e | None => NEnd end);
+    [core | | | | exact (g_seen _ HG)].
+  - intros r Hr. unfold results in *. simpl in Hr. rewrite Ek, app_nil_r. apply in_app_or in Hr.
+    destruct Hr as [Hr|[<-|[]]]; auto.
+  - intros z Hz. destruct (serr s); [inversion Hz; reflexivity | discriminate].
+  - intros Hz. destruct (serr s) eqn:Ee; [discriminate|]. right. split; [exact Kd|]. split; [reflexivity|].
+    apply all_ended; auto.
+Qed.
+
+Lemma inv_LRetNext s r s' : GI s -> step s (LRetNext r) = Some s' -> GI s'.
+Proof.
+  intros HG Hs. simpl in Hs. destruct (kpc_ s) eqn:Ek; try discriminate.
+  destruct (nres_eqb r r0); [|discriminate]. inversion Hs; subst s'; clear Hs.
+  pose proof (g_kpc _ HG) as K. unfold k_ok in K. rewrite Ek in K. destruct K as [Kr Km].
+  eapply GI_same_core; [exact HG | core | unfold k_ok; simpl; intros; congruence |].
+  eapply seen_ok_same; [core | | exact (g_seen _ HG)].
+  intros r' Hr. unfold results in *. simpl in Hr. rewrite Ek. rewrite app_nil_r in Hr. exact Hr.
+Qed.
+
+Lemma inv_LCallClose s s' : GI s -> step s LCallClose = Some s' -> GI s'.
+Proof.
+  intros HG Hs. simpl in Hs. destruct (kpc_ s) eqn:Ek; try discriminate.
+  destruct (kgo s) as [|g]; [discriminate|]. destruct (kprog s) as [|[c'|] rest]; try discriminate.
+  destruct (merged s && negb (rdone s)) eqn:Eg; [|discriminate]. inversion Hs; subst s'; clear Hs.
+  apply andb_prop in Eg. destruct Eg as [Em Er]. apply negb_true_iff in Er.
+  assert (Hres : forall kp, (forall r, kp <> KRet r) ->
+                 seen_ok (with_k s rest g kp)).
+  { intros kp Hkp. eapply seen_ok_same; [core | | exact (g_seen _ HG)].
+    intros r Hr. unfold results in *. simpl in Hr. rewrite Ek.
+    destruct kp; try exact Hr. exfalso. eapply Hkp; reflexivity. }
+  destruct (ws s) as [|p0 wl] eqn:Ew.
+  - assert (Hn : nw s = 0) by (rewrite <- (g_lenw _ HG), Ew; reflexivity).
+    eapply GI_same_core; [exact HG | core | unfold k_ok; simpl; auto | apply Hres; discriminate].
+  - eapply GI_same_core; [exact HG | core | unfold k_ok; simpl; auto | apply Hres; discriminate].
+Qed.
+
+Lemma inv_TKWait s s' : GI s -> step s TKWait = Some s' -> GI s'.
+Proof.
+  intros HG Hs. simpl in Hs. destruct (kpc_ s) eqn:Ek; try discriminate.
+  destruct (wg s) eqn:Ew; [|discriminate]. inversion Hs; subst s'; clear Hs.
+  pose proof (g_kpc _ HG) as K. unfold k_ok in K. rewrite Ek in K. destruct K as (Kr & Km & Kc).
+  eapply GI_same_core; [exact HG | core | unfold k_ok; simpl; auto |].
+  eapply seen_ok_same; [core | | exact (g_seen _ HG)].
+  intros r Hr. unfold results in *. simpl in Hr. rewrite Ek. exact Hr.
+Qed.
+
+Lemma inv_LCancel s c s' : GI s -> step s (LCancel c) = Some s' -> GI s'.
+Proof.
+  intros HG Hs. simpl in Hs. destruct (nth_error (kctxs s) c) as [[| |]|]; try discriminate;
+    inversion Hs; subst s'; clear Hs; try exact HG.
+  eapply GI_same_core; [exact HG | core | exact (g_kpc _ HG) |].
+  eapply seen_ok_same; [core | | exact (g_seen _ HG)]. intros r Hr. exact Hr.
+Qed.
+
+Lemma inv_TCancelEff s c s' : GI s -> step s (TCancelEff c) = Some s' -> GI s'.
+Proof.
+  intros HG Hs. simpl in Hs. destruct (nth_error (kctxs s) c) as [[| |]|]; try discriminate.
+  inversion Hs; subst s'; clear Hs.
+  pose proof (g_kpc _ HG) as K. unfold k_ok in K.
+  destruct (kpc_ s) eqn:Ek.
+  1-2,4-9: (eapply GI_same_core; [exact HG | core | unfold k_ok; simpl; rewrite Ek; exact K |];
+            eapply seen_ok_same; [core | | exact (g_seen _ HG)];
+            intros r' Hr; unfold results in *; simpl in Hr; rewrite Ek in *; exact Hr).
+  destruct (Nat.eqb c c0).
+  - destruct K as (Kr & Km & Kd).
+    eapply GI_same_core; [exact HG | core | unfold k_ok; simpl; auto |].
+    eapply seen_ok_add with (r := NErr ECtx); [core | | discriminate | discriminate | exact (g_seen _ HG)].
+    intros r Hr. unfold results in *. simpl in Hr. rewrite Ek, app_nil_r. apply in_app_or in Hr.
+    destruct Hr as [Hr|[<-|[]]]; auto.
+  - eapply GI_same_core; [exact HG | core | unfold k_ok; simpl; rewrite Ek; exact K |].
+    eapply seen_ok_same; [core | | exact (g_seen _ HG)].
+    intros r Hr. unfold results in *. simpl in Hr. rewrite Ek in *. exact Hr.
+Qed.
+
+Lemma worker_exists s i x : GI s -> nth_error (srcs s) i = Some x -> exists p, nth_error (ws s) i = Some p.
+Proof.
+  intros HG H. assert (i < length (srcs s)) by (apply nth_error_Some; congruence).
+  destruct (nth_error (ws s) i) eqn:E; [eauto|]. apply nth_error_None in E.
+  rewrite (g_lens _ HG) in *. rewrite (g_lenw _ HG) in E. lia.
+Qed.
+
+Lemma inv_LRelease s i k s' : GI s -> step s (LRelease i k) = Some s' -> GI s'.
+Proof.
+  intros HG Hs. simpl in Hs. destruct (nth_error (srcs s) i) as [x|] eqn:Hx; [|discriminate].
+  inversion Hs; subst s'; clear Hs.
+  destruct (worker_exists _ _ _ HG Hx) as [p Hp].
+  eapply (GI_local s _ i p p x (mkSrc (s_items x) (s_fin x) (s_tokens x + k) (s_out x) (s_closes x)));
+    eauto; simpl; try reflexivity; auto.
+  - symmetry. apply upd_same. exact Hp.
+  - congruence.
+  - intros [w1 w2 w3 w4 w5 w6 w7 w8 w9]. constructor; simpl; assumption.
+Qed.
+
+Lemma inv_TWgDone s i s' : GI s -> step s (TWgDone i) = Some s' -> GI s'.
+Proof.
+  intros HG Hs. simpl in Hs. destruct (nth_error (ws s) i) as [p|] eqn:Hp; [|discriminate].
+  destruct p; try discriminate. inversion Hs; subst s'; clear Hs.
+  destruct (src_exists _ _ _ HG Hp) as [x Hx].
+  eapply (GI_local s _ i WWgDone WExited x x); eauto; simpl; try reflexivity; auto; no_win.
+  - symmetry. apply upd_same. exact Hx.
+  - intros Hm. pose proof (g_wg _ HG Hm) as W. pose proof (count_upd not_exited _ _ _ WExited Hp) as C.
+    simpl in C. lia.
+  - intros E. rewrite E. reflexivity.
+  - intros [w1 w2 w3 w4 w5 w6 w7 w8 w9]. constructor; simpl in *; auto; no_win. wi_idle_tac w2.
+Qed.
+
+Lemma inv_TDefer s i s' : GI s -> step s (TDefer i) = Some s' -> GI s'.
+Proof.
+  intros HG Hs. unfold step in Hs. destruct (nth_error (ws s) i) as [p|] eqn:Hp; [|discriminate].
+  destruct p; try discriminate. cbv zeta in Hs.
+  remember (Nat.eqb (S (ndone s)) (nw s)) as fin eqn:Efin. symmetry in Efin.
+  inversion Hs; subst s'; clear Hs.
+  destruct (src_exists _ _ _ HG Hp) as [x Hx].
+  eapply (GI_local s _ i WDefer (if fin then WLoadOnce else WCloseIn) x x); eauto; simpl; try reflexivity; auto; no_win.
+  - symmetry. apply upd_same. exact Hx.
+  - destruct fin; simpl; lia.
+  - intros _. destruct fin; reflexivity.
+  - intros _ _ E. destruct fin; [reflexivity|]. apply Nat.eqb_neq in Efin. congruence.
+  - right. intros j q Hq. exact (pre_defer_no_closer _ _ _ _ _ HG Hp eq_refl Hq).
+  - intros [w1 w2 w3 w4 w5 w6 w7 w8 w9].
+    assert (Hfin : fin = true -> S (ndone s) = nw s) by (intros ->; apply Nat.eqb_eq; exact Efin). clear Efin.
+    destruct fin; constructor; simpl in *; auto; no_win; try (wi_idle_tac w2).
+Qed.
+
+Lemma inv_TCas s i s' : GI s -> step s (TCas i) = Some s' -> GI s'.
+Proof.
+  intros HG Hs. simpl in Hs. destruct (nth_error (ws s) i) as [p|] eqn:Hp; [|discriminate].
+  destruct p; try discriminate. destruct (once s) eqn:Eo; inversion Hs; subst s'; clear Hs.
+  - (* lost: somebody else's error is the first *)
+    eapply GI_setw; eauto; no_win.
+    intros x Hx [w1 w2 w3 w4 w5 w6 w7 w8 w9].
+    constructor; simpl in *; auto; no_win.
+    + wi_idle_tac w2.
+    + exists []. exact w7.
+    + intros _ Ho. congruence.
+  - (* won *)
+    assert (Hi : i < length (ws s)) by (apply nth_error_Some; congruence).
+    assert (Hw0 : winners s = []) by (pose proof (g_once _ HG) as O; rewrite Eo in O; exact O).
+    assert (Hd : sdone s = false).
+    { destruct (sdone s) eqn:Ed; [|reflexivity]. exfalso.
+      destruct (pre_defer_not_nil_closed _ _ _ HG Hp eq_refl Ed) as [e0 He0].
+      pose proof (serr_some_once _ _ HG Ed He0). congruence. }
+    assert (Hnocl : forall j q, nth_error (ws s) j = Some q -> closer q = false).
+    { intros j q Hq. exact (pre_defer_no_closer _ _ _ _ _ HG Hp eq_refl Hq). }
+    constructor; simpl; rewrite ?upd_length; try (apply HG; fail).
+    + rewrite (g_ndone _ HG). pose proof (count_upd post_defer _ _ _ (WCancel e) Hp) as C. simpl in C. lia.
+    + intros Hm. rewrite (g_wg _ HG Hm). pose proof (count_upd not_exited _ _ _ (WCancel e) Hp) as C. simpl in C. lia.
+    + exists i, e, (WCancel e). rewrite Hw0. split; [reflexivity|]. split; [apply nth_error_upd_same; exact Hi|].
+      right. left. reflexivity.
+    + pose proof (g_sender _ HG) as S. rewrite Hd in *. exact S.
+    + intros _. left. reflexivity.
+    + intros j1 j2 q1 q2 H1 H2 C1 C2.
+      destruct (nth_error_upd_cases _ _ _ _ _ H1) as [[-> ->]|[Hne1 H1']]; [discriminate|].
+      rewrite (Hnocl _ _ H1') in C1. discriminate.
+    + intros A. exfalso. pose proof (pre_defer_lt _ _ _ HG Hp eq_refl). lia.
+    + intros j q x Hq Hx. destruct (nth_error_upd_cases _ _ _ _ _ Hq) as [[-> ->]|[Hne Hq']].
+      * destruct (g_workers _ HG i _ x Hp Hx) as [w1 w2 w3 w4 w5 w6 w7 w8 w9].
+        constructor; simpl in *; auto; no_win.
+        -- wi_idle_tac w2.
+        -- intros e0 [W|W]; inversion W; subst. rewrite Hw0. auto.
+      * destruct (g_workers _ HG j q x Hq' Hx) as [w1 w2 w3 w4 w5 w6 w7 w8 w9].
+        constructor; simpl in *; auto.
+        -- intros e0 W. exfalso. eapply once_false_no_winner; eauto.
+        -- intros ->. specialize (Hnocl _ _ Hq'). discriminate.
+Qed.
+
+(* ---- steps that complete parked Sends (cancel, close(streamDone), close(senderDone)) ---- *)
+Definition wake_ok (g : wpc -> wpc) : Prop :=
+  forall p, (is_parked p = false -> g p = p) /\ (is_parked p = true -> g p = WDefer \/ g p = WCallNext).
+
+Lemma wake_err_ok : wake_ok wake_err.
+Proof. intros p. destruct p; simpl; split; auto; discriminate. Qed.
+
+Lemma wake_sender_ok e : wake_ok (wake_sender e).
+Proof. intros p. destruct p; simpl; split; auto; try discriminate. intros _. destruct e; simpl; auto. Qed.
+
+Lemma count_wake f g l :
+  wake_ok g -> (forall p, is_parked p = true -> f (g p) = f p) -> count f (map g l) = count f l.
+Proof.
+  intros Hg Hf. apply count_map. intros p. destruct (Hg p) as [A B].
+  destruct (is_parked p) eqn:E; [apply Hf; exact E | rewrite A; reflexivity].
+Qed.
+
+Lemma count_wake_pd g l : wake_ok g -> count post_defer (map g l) = count post_defer l.
+Proof.
+  intros Hg. apply count_wake; [exact Hg|]. intros p Hp. destruct p; try discriminate.
+  destruct (Hg (WSendParked v)) as [_ B]. destruct (B eq_refl) as [-> | ->]; reflexivity.
+Qed.
+
+Lemma count_wake_ne g l : wake_ok g -> count not_exited (map g l) = count not_exited l.
+Proof.
+  intros Hg. apply count_wake; [exact Hg|]. intros p Hp. destruct p; try discriminate.
+  destruct (Hg (WSendParked v)) as [_ B]. destruct (B eq_refl) as [-> | ->]; reflexivity.
+Qed.
+
+Lemma wake_closer g p : wake_ok g -> closer (g p) = closer p.
+Proof.
+  intros Hg. destruct (Hg p) as [A B]. destruct (is_parked p) eqn:E; [|rewrite A; reflexivity].
+  destruct p; try discriminate. destruct (B eq_refl) as [-> | ->]; reflexivity.
+Qed.
+
+Lemma wake_winning g p e : wake_ok g -> winning p e -> g p = p.
+Proof. intros Hg [-> | ->]; apply Hg; reflexivity. Qed.
+
+(* the per-worker invariant of a worker whose parked Send was completed with an error, or that was left alone;
+   [s'] differs from [s] in flags that only got set *)
+Lemma WI_wake s s' g j q x :
+  wake_ok g -> WI s j q x ->
+  nw s' = nw s -> merged s' = merged s -> ndone s' = ndone s -> recvd s' = recvd s -> winners s' = winners s ->
+  once s' = once s ->
+  (ctx s = true -> ctx s' = true) -> (rdone s = true -> rdone s' = true) ->
+  (is_parked q = true -> g q = WDefer /\ (once s' = true \/ rdone s' = true)) ->
+  (forall e, winning q e -> sdone s' = false) ->
+  WI s' j (g q) x.
+Proof.
+  intros Hg [w1 w2 w3 w4 w5 w6 w7 w8 w9] En Em End Erc Ewn Eo Hc Hr Hpk Hwin.
+  destruct (Hg q) as [A B]. destruct (is_parked q) eqn:E.
+  - destruct q; try discriminate. destruct (Hpk eq_refl) as [-> Hfl].
+    constructor; rewrite ?En, ?Em, ?End, ?Erc, ?Ewn; simpl in *; auto; no_win.
+    + wi_idle_tac w2.
+    + eexists. exact w7.
+    + intros _ Ho Hrd. destruct Hfl; congruence.
+  - rewrite (A eq_refl).
+    constructor; rewrite ?En, ?Em, ?End, ?Erc, ?Ewn, ?Eo; auto.
+    + intros e W. split; [apply (w3 e W)|apply (Hwin e W)].
+    + rewrite E. discriminate.
+    + intros Hpl Ho Hrd. apply w8; auto. destruct (rdone s) eqn:R; [|reflexivity]. rewrite (Hr eq_refl) in Hrd. discriminate.
+Qed.
+
+Lemma nth_error_wake_cases (g : wpc -> wpc) (l : list wpc) i p' j q :
+  nth_error (upd (map g l) i p') j = Some q ->
+  (j = i /\ q = p') \/ (j <> i /\ exists q0, nth_error l j = Some q0 /\ q = g q0).
+Proof.
+  intros H. destruct (nth_error_upd_cases _ _ _ _ _ H) as [[-> ->]|[Hne H']]; [left; auto|].
+  right. split; [exact Hne|]. exact (nth_error_map_some g l j q H').
+Qed.
+
+Lemma inv_TWCancel s i s' : GI s -> step s (TWCancel i) = Some s' -> GI s'.
+Proof.
+  intros HG Hs. simpl in Hs. destruct (nth_error (ws s) i) as [p|] eqn:Hp; [|discriminate].
+  destruct p; try discriminate. inversion Hs; subst s'; clear Hs.
+  destruct (src_exists _ _ _ HG Hp) as [x Hx].
+  pose proof (g_workers _ HG _ _ _ Hp Hx) as Wi.
+  destruct (wi_winner _ _ _ _ Wi e (or_introl eq_refl)) as [Hwin Hd].
+  assert (Ho : once s = true).
+  { pose proof (g_once _ HG) as O. destruct (once s); [reflexivity|congruence]. }
+  assert (Hi : i < length (ws s)) by (apply nth_error_Some; congruence).
+  assert (Hmi : nth_error (map wake_err (ws s)) i = Some (WCancel e)).
+  { rewrite nth_error_map, Hp. reflexivity. }
+  pose proof wake_err_ok as Hg.
+  constructor; simpl; rewrite ?upd_length, ?map_length; try (apply HG; fail).
+  - rewrite (g_ndone _ HG). pose proof (count_upd post_defer _ _ _ (WSCloseErr e) Hmi) as C. simpl in C.
+    rewrite (count_wake_pd _ _ Hg) in C. lia.
+  - intros Hm. rewrite (g_wg _ HG Hm). pose proof (count_upd not_exited _ _ _ (WSCloseErr e) Hmi) as C. simpl in C.
+    rewrite (count_wake_ne _ _ Hg) in C. lia.
+  - rewrite Ho. exists i, e, (WSCloseErr e). split; [exact Hwin|].
+    split; [apply nth_error_upd_same; rewrite map_length; exact Hi|]. right. right. reflexivity.
+  - pose proof (g_sender _ HG) as S. rewrite Hd in *. exact S.
+  - intros _. left. exact Ho.
+  - intros j1 j2 q1 q2 H1 H2 C1 C2.
+    destruct (nth_error_wake_cases _ _ _ _ _ _ H1) as [[-> ->]|[Hne1 (r1 & H1' & ->)]]; [discriminate|].
+    rewrite (wake_closer _ _ Hg) in C1. rewrite (pre_defer_no_closer _ _ _ _ _ HG Hp eq_refl H1') in C1. discriminate.
+  - intros A. exfalso. pose proof (pre_defer_lt _ _ _ HG Hp eq_refl). lia.
+  - pose proof (g_kpc _ HG) as K. unfold k_ok in *. simpl. destruct (kpc_ s); intuition.
+  - intros j q y Hq Hy. destruct (nth_error_wake_cases _ _ _ _ _ _ Hq) as [[-> ->]|[Hne (q0 & Hq0 & ->)]].
+    + rewrite Hx in Hy. inversion Hy; subst y. destruct Wi as [w1 w2 w3 w4 w5 w6 w7 w8 w9].
+      constructor; simpl in *; auto; no_win.
+      * wi_idle_tac w2.
+      * intros e0 [W|W]; inversion W; subst. auto.
+    + apply (WI_wake s _ wake_err j q0 y Hg (g_workers _ HG j q0 y Hq0 Hy)); simpl; auto.
+      * intros Hpk. split; [destruct q0; try discriminate; reflexivity|]. left. exact Ho.
+Qed.
+
+Lemma inv_wake_all s s' kp :
+  GI s ->
+  nw s' = nw s -> ws s' = map wake_err (ws s) -> srcs s' = srcs s -> merged s' = merged s ->
+  sdone s' = sdone s -> serr s' = serr s -> ndone s' = ndone s -> once s' = once s -> wg s' = wg s ->
+  recvd s' = recvd s -> winners s' = winners s -> sclosed s' = sclosed s -> seen s' = seen s -> kpc_ s' = kp ->
+  (ctx s = true -> ctx s' = true) -> (rdone s = true -> rdone s' = true) ->
+  rdone s' = true -> (forall r, kpc_ s <> KRet r) -> (forall r, kp <> KRet r) -> k_ok s' ->
+  GI s'.
+Proof.
+  intros HG En Ews Esrcs Em Ed Ee End Eo Ewg Erc Ewn Esc Esn Ek Hc Hr Hr' Hk1 Hk2 HK.
+  pose proof wake_err_ok as Hg.
+  constructor; rewrite ?En, ?Ews, ?Esrcs, ?Em, ?Ed, ?Ee, ?End, ?Eo, ?Ewg, ?Erc, ?Ewn, ?Esc, ?map_length;
+    try (apply HG; fail); try assumption.
+  - rewrite (count_wake_pd _ _ Hg). apply HG.
+  - rewrite (count_wake_ne _ _ Hg). apply HG.
+  - pose proof (g_once _ HG) as O. destruct (once s); [|exact O].
+    destruct O as (i0 & e & p0 & A & B & C). exists i0, e.
+    destruct C as [C|C].
+    + exists (wake_err p0). split; [exact A|]. split; [rewrite nth_error_map, B; reflexivity|left; exact C].
+    + exists p0. split; [exact A|]. split; [|right; exact C].
+      rewrite nth_error_map, B. simpl. f_equal. apply (wake_winning _ _ _ Hg C).
+  - pose proof (g_sender _ HG) as S. destruct (sdone s); [|exact S]. destruct S as [S1 S2]. split; [exact S1|].
+    destruct (serr s); [exact S2|]. destruct S2 as (A & B & C). split; [exact A|]. split; [exact B|].
+    intros j q Hq. destruct (nth_error_map_some _ _ _ _ Hq) as (q0 & Hq0 & ->).
+    rewrite (wake_closer _ _ Hg). eapply C; eauto.
+  - intros _. right. exact Hr'.
+  - intros j1 j2 q1 q2 H1 H2 C1 C2.
+    destruct (nth_error_map_some _ _ _ _ H1) as (r1 & H1' & ->). destruct (nth_error_map_some _ _ _ _ H2) as (r2 & H2' & ->).
+    rewrite (wake_closer _ r1 Hg) in C1. rewrite (wake_closer _ r2 Hg) in C2. eapply (g_lone _ HG); eauto.
+  - intros A B. destruct (g_alldone _ HG A B) as [D|(j & q & Hq & C)]; [left; exact D|]. right.
+    exists j, (wake_err q). split; [rewrite nth_error_map, Hq; reflexivity|]. rewrite (wake_closer _ _ Hg). exact C.
+  - destruct (g_seen _ HG) as [S1 S2]. unfold seen_ok, results, ended_ok. rewrite Esn, Ek, En, Ed, Ee, Erc, Esrcs.
+    assert (Hres : forall r, In r (seen s ++ match kp with KRet r0 => [r0] | _ => [] end) -> In r (results s)).
+    { intros r Hin. unfold results. apply in_app_or in Hin. apply in_or_app. destruct Hin as [Hin|Hin]; [left; exact Hin|].
+      destruct kp; simpl in Hin; try contradiction. exfalso. eapply Hk2; reflexivity. }
+    split; [intros z Hz; apply S1; apply Hres; exact Hz | intros Hz; apply S2; apply Hres; exact Hz].
+  - intros j q y Hq Hy. destruct (nth_error_map_some _ _ _ _ Hq) as (q0 & Hq0 & ->).
+    apply (WI_wake s s' wake_err j q0 y Hg (g_workers _ HG j q0 y Hq0 Hy)); auto.
+    + intros Hpk. split; [destruct q0; try discriminate; reflexivity|]. right. exact Hr'.
+    + intros e W. rewrite Ed. destruct (src_exists _ _ _ HG Hq0) as [y0 Hy0].
+      apply (wi_winner _ _ _ _ (g_workers _ HG j q0 y0 Hq0 Hy0) e W).
+Qed.
+
+Lemma inv_TKClose1 s s' : GI s -> step s TKClose1 = Some s' -> GI s'.
+Proof.
+  intros HG Hs. simpl in Hs. destruct (kpc_ s) eqn:Ek; try discriminate. inversion Hs; subst s'; clear Hs.
+  pose proof (g_kpc _ HG) as K. unfold k_ok in K. rewrite Ek in K. destruct K as [Kr Km].
+  eapply (inv_wake_all s _ KClose2); eauto; simpl; try reflexivity; auto; try (rewrite Ek; discriminate); try discriminate.
+  unfold k_ok. simpl. auto.
+Qed.
+
+Lemma inv_TKClose2 s s' : GI s -> step s TKClose2 = Some s' -> GI s'.
+Proof.
+  intros HG Hs. simpl in Hs. destruct (kpc_ s) eqn:Ek; try discriminate. inversion Hs; subst s'; clear Hs.
+  pose proof (g_kpc _ HG) as K. unfold k_ok in K. rewrite Ek in K. destruct K as [Kr Km].
+  eapply (inv_wake_all s _ KWait); eauto; simpl; try reflexivity; auto; try (rewrite Ek; discriminate); try discriminate.
+  unfold k_ok. simpl. auto.
+Qed.
+
+Lemma k_ok_sender_closed s s' :
+  k_ok s -> kpc_ s' = wake_k_sender (kpc_ s) -> nw s' = nw s -> merged s' = merged s -> rdone s' = rdone s ->
+  ctx s' = ctx s -> wg s' = wg s -> sdone s' = true -> k_ok s'.
+Proof.
+  unfold k_ok. intros K Ek En Em Er Ec Ewg Ed. rewrite Ek, En, Em, Er, Ec, Ewg, Ed.
+  destruct (kpc_ s); simpl; intuition.
+Qed.
+
+Lemma results_sender_closed s s' r :
+  kpc_ s' = wake_k_sender (kpc_ s) -> seen s' = seen s -> In r (results s') -> In r (results s).
+Proof.
+  unfold results. intros Ek Esn. rewrite Ek, Esn. destruct (kpc_ s); simpl; auto.
+Qed.
+
+Lemma inv_TSCloseErr s i s' : GI s -> step s (TSCloseErr i) = Some s' -> GI s'.
+Proof.
+  intros HG Hs. simpl in Hs. destruct (nth_error (ws s) i) as [p|] eqn:Hp; [|discriminate].
+  destruct p; try discriminate. inversion Hs; subst s'; clear Hs.
+  destruct (src_exists _ _ _ HG Hp) as [x Hx].
+  pose proof (g_workers _ HG _ _ _ Hp Hx) as Wi.
+  destruct (wi_winner _ _ _ _ Wi e (or_intror eq_refl)) as [Hwin Hd].
+  assert (Ho : once s = true).
+  { pose proof (g_once _ HG) as O. destruct (once s); [reflexivity|congruence]. }
+  assert (Hi : i < length (ws s)) by (apply nth_error_Some; congruence).
+  pose proof (wake_sender_ok (Some e)) as Hg.
+  assert (Hmi : nth_error (map (wake_sender (Some e)) (ws s)) i = Some (WSCloseErr e)).
+  { rewrite nth_error_map, Hp. reflexivity. }
+  pose proof (g_sender _ HG) as S0. rewrite Hd in S0. destruct S0 as [Hse Hsc].
+  unfold close_sender. rewrite Hd.
+  constructor; simpl; rewrite ?upd_length, ?map_length; try (apply HG; fail).
+  - rewrite (g_ndone _ HG). pose proof (count_upd post_defer _ _ _ WDefer Hmi) as C. simpl in C.
+    rewrite (count_wake_pd _ _ Hg) in C. lia.
+  - intros Hm. rewrite (g_wg _ HG Hm). pose proof (count_upd not_exited _ _ _ WDefer Hmi) as C. simpl in C.
+    rewrite (count_wake_ne _ _ Hg) in C. lia.
+  - rewrite Ho. exists i, e, WDefer. split; [exact Hwin|].
+    split; [apply nth_error_upd_same; rewrite map_length; exact Hi|]. left. reflexivity.
+  - split; [rewrite Hsc; reflexivity|]. exists i. exact Hwin.
+  - intros j1 j2 q1 q2 H1 H2 C1 C2.
+    destruct (nth_error_wake_cases _ _ _ _ _ _ H1) as [[-> ->]|[Hne1 (r1 & H1' & ->)]]; [discriminate|].
+    rewrite (wake_closer _ _ Hg) in C1. rewrite (pre_defer_no_closer _ _ _ _ _ HG Hp eq_refl H1') in C1. discriminate.
+  - intros _ _. left. reflexivity.
+  - eapply k_ok_sender_closed; [exact (g_kpc _ HG) | | | | | | |]; reflexivity.
+  - destruct (g_seen _ HG) as [S1 S2]. split.
+    + intros z Hz. apply results_sender_closed with (s := s) in Hz; [|reflexivity|reflexivity].
+      specialize (S1 z Hz). congruence.
+    + intros Hz. apply results_sender_closed with (s := s) in Hz; [|reflexivity|reflexivity].
+      destruct (S2 Hz) as [Z|(D & _)]; [left; exact Z|congruence].
+  - intros j q y Hq Hy. destruct (nth_error_wake_cases _ _ _ _ _ _ Hq) as [[-> ->]|[Hne (q0 & Hq0 & ->)]].
+    + rewrite Hx in Hy. inversion Hy; subst y. destruct Wi as [w1 w2 w3 w4 w5 w6 w7 w8 w9].
+      constructor; simpl in *; auto; no_win.
+      * wi_idle_tac w2.
+      * exists []. exact w7.
+      * intros _ Ho'. congruence.
+    + pose proof (g_workers _ HG j q0 y Hq0 Hy) as Wj.
+      destruct (is_parked q0) eqn:Epk.
+      * destruct q0; try discriminate. simpl.
+        destruct Wj as [w1 w2 w3 w4 w5 w6 w7 w8 w9].
+        constructor; simpl in *; auto; no_win.
+        -- wi_idle_tac w2.
+        -- eexists. exact w7.
+        -- intros _ Ho'. congruence.
+      * destruct (Hg q0) as [A _]. rewrite (A Epk).
+        destruct Wj as [w1 w2 w3 w4 w5 w6 w7 w8 w9].
+        constructor; simpl; auto.
+        -- intros e0 W. exfalso. destruct (w3 e0 W) as [W' _]. rewrite Hwin in W'. inversion W'; subst. congruence.
+        -- rewrite Epk. discriminate.
+Qed.
+
+Lemma inv_TSCloseNil s i s' : GI s -> step s (TSCloseNil i) = Some s' -> GI s'.
+Proof.
+  intros HG Hs. simpl in Hs. destruct (nth_error (ws s) i) as [p|] eqn:Hp; [|discriminate].
+  destruct p; try discriminate. inversion Hs; subst s'; clear Hs.
+  destruct (src_exists _ _ _ HG Hp) as [x Hx].
+  pose proof (g_workers _ HG _ _ _ Hp Hx) as Wi.
+  pose proof (wi_closenil _ _ _ _ Wi eq_refl) as Ho.
+  pose proof (wi_closer _ _ _ _ Wi eq_refl) as Hn.
+  assert (Hw0 : winners s = []) by (pose proof (g_once _ HG) as O; rewrite Ho in O; exact O).
+  assert (Hd : sdone s = false).
+  { destruct (sdone s) eqn:Ed; [|reflexivity]. exfalso. pose proof (g_sender _ HG) as S. rewrite Ed in S.
+    destruct S as [_ S]. destruct (serr s).
+    - destruct S as [i0 S]. congruence.
+    - destruct S as (_ & _ & S). specialize (S _ _ Hp). discriminate. }
+  assert (Hall : forall j q, nth_error (ws s) j = Some q -> post_defer q = true).
+  { intros j q Hq. eapply count_all; [|exact Hq]. rewrite <- (g_ndone _ HG), (g_lenw _ HG). exact Hn. }
+  assert (Hi : i < length (ws s)) by (apply nth_error_Some; congruence).
+  pose proof (wake_sender_ok None) as Hg.
+  assert (Hmi : nth_error (map (wake_sender None) (ws s)) i = Some WSCloseNil).
+  { rewrite nth_error_map, Hp. reflexivity. }
+  pose proof (g_sender _ HG) as S0. rewrite Hd in S0. destruct S0 as [Hse Hsc].
+  unfold close_sender. rewrite Hd.
+  constructor; simpl; rewrite ?upd_length, ?map_length; try (apply HG; fail).
+  - rewrite (g_ndone _ HG). pose proof (count_upd post_defer _ _ _ WCloseIn Hmi) as C. simpl in C.
+    rewrite (count_wake_pd _ _ Hg) in C. lia.
+  - intros Hm. rewrite (g_wg _ HG Hm). pose proof (count_upd not_exited _ _ _ WCloseIn Hmi) as C. simpl in C.
+    rewrite (count_wake_ne _ _ Hg) in C. lia.
+  - rewrite Ho. exact Hw0.
+  - split; [rewrite Hsc; reflexivity|]. split; [exact Ho|]. split; [exact Hn|].
+    intros j q Hq. destruct (nth_error_wake_cases _ _ _ _ _ _ Hq) as [[-> ->]|[Hne (q0 & Hq0 & ->)]]; [reflexivity|].
+    rewrite (wake_closer _ _ Hg). destruct (closer q0) eqn:C; [|reflexivity].
+    exfalso. apply Hne. eapply (g_lone _ HG); eauto.
+  - intros j1 j2 q1 q2 H1 H2 C1 C2.
+    destruct (nth_error_wake_cases _ _ _ _ _ _ H1) as [[-> ->]|[Hne1 (r1 & H1' & ->)]]; [discriminate|].
+    rewrite (wake_closer _ _ Hg) in C1. exfalso. apply Hne1. eapply (g_lone _ HG); eauto.
+  - intros _ _. left. reflexivity.
+  - eapply k_ok_sender_closed; [exact (g_kpc _ HG) | | | | | | |]; reflexivity.
+  - destruct (g_seen _ HG) as [S1 S2]. split.
+    + intros z Hz. apply results_sender_closed with (s := s) in Hz; [|reflexivity|reflexivity].
+      specialize (S1 z Hz). congruence.
+    + intros Hz. apply results_sender_closed with (s := s) in Hz; [|reflexivity|reflexivity].
+      destruct (S2 Hz) as [Z|(D & _)]; [left; exact Z|congruence].
+  - intros j q y Hq Hy. destruct (nth_error_wake_cases _ _ _ _ _ _ Hq) as [[-> ->]|[Hne (q0 & Hq0 & ->)]].
+    + rewrite Hx in Hy. inversion Hy; subst y. destruct Wi as [w1 w2 w3 w4 w5 w6 w7 w8 w9].
+      constructor; simpl in *; auto; no_win. wi_idle_tac w2.
+    + pose proof (g_workers _ HG j q0 y Hq0 Hy) as Wj. pose proof (Hall _ _ Hq0) as Hpd.
+      assert (Epk : is_parked q0 = false) by (destruct q0; try discriminate; reflexivity).
+      destruct (Hg q0) as [A _]. rewrite (A Epk).
+      destruct Wj as [w1 w2 w3 w4 w5 w6 w7 w8 w9].
+      constructor; simpl; auto.
+      * intros e0 [W|W]; subst q0; discriminate.
+      * rewrite Epk. discriminate.
+Qed.
+End SMP.
